@@ -234,34 +234,84 @@ def audit_axioms(theorems, module="MtblProps"):
 # lockstep execution of a script on real code and model
 
 class Proc:
+    """a line-protocol child process.  Every request has a deadline (VERIF_REQ_TIMEOUT seconds, default 120): a process that
+    does not answer in time is killed and its reply is 'hang' — so a change that makes the library (or the model) loop or
+    deadlock is a result, not a stuck check."""
+    TIMEOUT = float(os.environ.get("VERIF_REQ_TIMEOUT", "120"))
     def __init__(self, argv, env=None):
         e = dict(os.environ)
         e["ASAN_OPTIONS"] = "exitcode=99:detect_leaks=0:abort_on_error=0:allocator_may_return_null=1"
         if env:
             e.update(env)
-        self.p = subprocess.Popen(argv, stdin=subprocess.PIPE, stdout=subprocess.PIPE, stderr=subprocess.PIPE,
-                                  text=True, bufsize=1, env=e)
+        self.p = subprocess.Popen(argv, stdin=subprocess.PIPE, stdout=subprocess.PIPE, stderr=subprocess.PIPE, bufsize=0, env=e)
         self.dead = None
-    def ask(self, line):
-        """send one request; returns (reply, side_lines). reply 'abort'/'asan'/'crash:<sig>' if the process died."""
+        self.buf = b""
+        self.errbuf = []
+        import threading
+        # stderr is drained in the background so that a chatty child can never block on a full pipe
+        def drain():
+            try:
+                while True:
+                    c = self.p.stderr.read(65536)
+                    if not c:
+                        break
+                    if sum(len(x) for x in self.errbuf) < 4000000:
+                        self.errbuf.append(c)
+            except Exception:
+                pass
+        self.errthread = threading.Thread(target=drain, daemon=True); self.errthread.start()
+    def _readline(self, deadline):
+        """one line from stdout (without the newline), '' at EOF, None on timeout"""
+        import select
+        fd = self.p.stdout.fileno()
+        while b"\n" not in self.buf:
+            left = deadline - time.time()
+            if left <= 0:
+                return None
+            r, _, _ = select.select([fd], [], [], min(left, 5.0))
+            if not r:
+                continue
+            chunk = os.read(fd, 1 << 20)
+            if not chunk:
+                if self.buf:
+                    line, self.buf = self.buf, b""
+                    return line.decode("utf-8", "replace")
+                return ""
+            self.buf += chunk
+        line, self.buf = self.buf.split(b"\n", 1)
+        return line.decode("utf-8", "replace")
+    def ask(self, line, timeout=None):
+        """send one request; returns (reply, side_lines). reply 'abort'/'asan'/'crash:<sig>' if the process died,
+        'hang' if it did not answer before the deadline."""
         if self.dead:
             return self.dead, []
         try:
-            self.p.stdin.write(line + "\n"); self.p.stdin.flush()
-        except BrokenPipeError:
+            self.p.stdin.write((line + "\n").encode()); self.p.stdin.flush()
+        except (BrokenPipeError, OSError):
             return self._died(), []
         side = []
+        deadline = time.time() + (timeout or self.TIMEOUT)
         while True:
-            out = self.p.stdout.readline()
+            out = self._readline(deadline)
+            if out is None:
+                try:
+                    self.p.kill()
+                except Exception:
+                    pass
+                self.p.wait()
+                self.dead = "hang"
+                self.errthread.join(timeout=2)
+                self.stderr = b"".join(self.errbuf).decode("utf-8", "replace")
+                return self.dead, side
             if out == "":
                 return self._died(), side
-            out = out.rstrip("\n")
             if out.startswith("#"):
                 side.append(out); continue
             return out, side
     def _died(self):
         rc = self.p.wait()
-        err = self.p.stderr.read()
+        self.errthread.join(timeout=5)
+        err = b"".join(self.errbuf).decode("utf-8", "replace")
         self.stderr = err
         if rc == 66 or "ThreadSanitizer" in err:
             self.dead = "tsan"
@@ -283,11 +333,13 @@ class Proc:
             self.p.wait(timeout=20)
         except Exception:
             self.p.kill()
-        if not hasattr(self, "stderr"):
             try:
-                self.stderr = self.p.stderr.read()
+                self.p.wait(timeout=5)
             except Exception:
-                self.stderr = ""
+                pass
+        if not hasattr(self, "stderr"):
+            self.errthread.join(timeout=2)
+            self.stderr = b"".join(self.errbuf).decode("utf-8", "replace")
 
 
 class Tmp:
